@@ -15,7 +15,7 @@ RULE = ("(constraints) PCBO/PCSO histories of 1-3 constraints drawn from the six
         "with the model built with the numbers directly: type, coefficients, recorded constraints, num_ancillas; the "
         "symbolic original is snapshotted. (reductions) to_qubo/to_quso/to_pubo/to_puso(lam=Symbol) on degree >= 3 models. "
         "Non-trivial = the symbolic model really contains a symbol in >= 2 coefficients; distinct = digest of the history"
-        ' Also: every argument form of subs, weights of 2^40, models whose own coefficients are number + k*symbol (coincidental cancellations skipped), symbols inside the constraint polynomial with supplied bounds, a sympy number left after full substitution must equal (==) the number of the numeric build, independence of the result from the original.')
+        ' Also: symbols named by their strings in every subs form, objective coefficients of numpy / Fraction types next to symbolic weights, every argument form of subs, weights of 2^40, models whose own coefficients are number + k*symbol (coincidental cancellations skipped), symbols inside the constraint polynomial with supplied bounds, a sympy number left after full substitution must equal (==) the number of the numeric build, independence of the result from the original.')
 TIERS = {"quick": {"shards": 8, "cases": 120}, "thorough": {"shards": 16, "cases": 5000}}
 FLOOR_BASE = {"quick": 90, "thorough": 2000}    # case counts the floors below were calibrated for; the launcher scales them
 GATES = _sat.ALL + ["eq_" + g for g in _sat.ALL]
@@ -26,7 +26,7 @@ def FLOORS(tier):
     f = {"constraint-histories": 350 if q else 10000, "reductions": 120 if q else 4000, "partial-substitution": 80,
          "arbitrary-float-weight": 80, "logical-method": 100, "class:PCBO": 100, "class:PCSO": 100,
          "symbol-really-present": 300 if q else 9000, "independence-probes": 300, "reduction:nothing-to-reduce": 15,
-         "subs-form:dict": 60, "subs-form:pairs": 60, "subs-form:positional": 40, "huge-weight": 60, "symbol-inside-constraint-polynomial": 60, "original-with-name-and-user-mapping": 100,
+         "subs-form:dict": 60, "subs-form:pairs": 60, "subs-form:positional": 40, "typed-number-coefficients": 25, "subs-form:symbol-named-by-string": 50, "huge-weight": 60, "symbol-inside-constraint-polynomial": 60, "original-with-name-and-user-mapping": 100,
          "reduction:symbolic-model-coefficients": 30}
     for s in C.SHAPES:
         f["shape:" + s] = 8 if q else 300
@@ -88,6 +88,13 @@ def case(ctx, rng, idx):
     if rng.random() < 0.4:
         o = gen.rand_terms(rng, labs, 2, lo=1, hi=3)
         so = newsym() if rng.random() < 0.5 else None
+        if rng.random() < 0.35:
+            # objective coefficients that are numbers but neither int nor float (weights read from an integer numpy array, exact rationals)
+            import numpy as np
+            from fractions import Fraction
+            ty_ = rng.choice([np.int64, np.float64, lambda v: Fraction(v).limit_denominator(64), np.int32])
+            o = {k: ty_(v) if float(v).is_integer() or ty_ not in (np.int64, np.int32) else ty_(2 * v) for k, v in o.items()}
+            ctx.cat("typed-number-coefficients")
         steps.append(("objective", o, so))
     for _ in range(rng.randint(1, 3)):
         if kind == "bool" and rng.random() < 0.35:
@@ -212,6 +219,11 @@ def case(ctx, rng, idx):
             form = "pairs"
         ctx.cat("subs-form:" + form)
         w["subs_form"] = form
+        if rng.random() < 0.3:
+            # sympy's subs sympifies what it is given: a symbol may be named by its string
+            subsmap = {str(k_): v_ for k_, v_ in subsmap.items()}
+            ctx.cat("subs-form:symbol-named-by-string")
+            w["subs_form"] = form + " (symbols named by strings)"
         if form == "dict":
             ok, Hn = ctx.call("subs", Hs.subs, subsmap, _w=w)
         elif form == "pairs":
@@ -354,6 +366,9 @@ def reduction_case(ctx, rng):
     form = rng.choice(["dict", "pairs", "positional"])
     ctx.cat("subs-form:" + form)
     w["subs_form"] = form
+    if rng.random() < 0.3:
+        lam = str(lam)
+        ctx.cat("subs-form:symbol-named-by-string")
     ok, Dn = ctx.call("subs", Ds.subs, {lam: c}, _w=w) if form == "dict" else (
         ctx.call("subs", Ds.subs, [(lam, c)], _w=w) if form == "pairs" else ctx.call("subs", Ds.subs, lam, c, _w=w))
     if not ok:
